@@ -43,7 +43,6 @@ inductive TxErr where
   | internal     -- Error::Internal (`pdus.next().ok_or(..)`, `data.get(0..n).ok_or(..)`)
   | wireShort    -- Error::Wire(ReadBufferTooShort) from `u64::unpack_from_slice` / `AlControl::unpack_from_slice`
   | pduTooLong   -- Error::Pdu(TooLong) from a push
-  | deadlock     -- not an `Err`: the call never returns (it requests the image write lock while holding it)
   | fuel
   deriving Repr, DecidableEq
 
@@ -304,25 +303,17 @@ def finish (c : Cfg) (r : St × Outcome TxErr Unit) : Out :=
 def cycle (c : Cfg) (image : List Nat) (resps : List (List RPdu)) (idx0 : Nat) : Out :=
   finish c (loop c (fuelFor c image) (initSt c image resps idx0))
 
-/-- `SubDeviceGroup::tx_rx` entered while the image lock `self.pdi` is (`locked`) / is not held by the caller:
-    its first statement is `let mut pdi_lock = self.pdi.write();`, and the lock is not re-entrant
-    (`DefaultLock` is a spin lock), so with the lock held the call spins forever. -/
-def txRxWith (locked : Bool) (c : Cfg) (image : List Nat) (resps : List (List RPdu)) (idx0 : Nat) : Out :=
-  if locked then { frames := [], image := image, res := .err .deadlock }
-  else cycle { c with dc := none } image resps idx0
-
-/-- `SubDeviceGroup::tx_rx` called by the application. -/
+/-- `SubDeviceGroup::tx_rx`. -/
 def txRx (c : Cfg) (image : List Nat) (resps : List (List RPdu)) (idx0 : Nat) : Out :=
-  txRxWith false c image resps idx0
+  cycle { c with dc := none } image resps idx0
 
-/-- `SubDeviceGroup::tx_rx_sync_system_time`: takes the image write lock first (`let mut pdi_lock =
-    self.pdi.write();`, alive until the end of the function), then `maindevice.dc_ref_address()` (`None` iff the
-    stored address is 0) selects the clock loop or `self.tx_rx(maindevice).await` with `extra: None` — the latter
-    while `pdi_lock` is still held. -/
+/-- `SubDeviceGroup::tx_rx_sync_system_time`: `maindevice.dc_ref_address()` (`None` iff the stored address is 0)
+    selects the clock loop — which takes the image write lock in that branch only — or `self.tx_rx(maindevice)`
+    with `extra: None` (which takes the lock itself; the lock is not re-entrant, so the caller must not hold it). -/
 def txRxSyncSystemTime (c : Cfg) (dcRefStored : Nat) (image : List Nat) (resps : List (List RPdu))
     (idx0 : Nat) : Out :=
   if dcRefStored > 0 then cycle { c with dc := some dcRefStored } image resps idx0
-  else txRxWith true c image resps idx0
+  else txRx c image resps idx0
 
 /-- `SubDeviceGroup::tx_rx_dc` up to `CycleInfo.dc_system_time` (`self.dc_conf.reference` is the reference). -/
 def txRxDc (c : Cfg) (reference : Nat) (image : List Nat) (resps : List (List RPdu)) (idx0 : Nat) : Out :=
